@@ -494,6 +494,12 @@ class Sim:
                 for o in all_outs(e):
                     want = self.model.rec.get(o)
                     got = res['log'].get(o)
+                    if 'log_before' in res:
+                        # real binary: compare with what the log held before this build. (The model's timestamp for a record
+                        # is the lock file's time as the helper tool saw it; ninja touches that file again for every command
+                        # it starts, so the two can differ by microseconds when commands start close together.)
+                        lb = res['log_before'].get(o)
+                        want = None if lb is None else (None, lb['mtime'])
                     if (got is None) != (want is None) or (got is not None and got['mtime'] != want[1]):
                         self.add('C05', 'build-log record changed for an output of a failed command', dict(out=o, got=got, model=want))
                     wd = self.model.deprec.get(o)
